@@ -504,3 +504,59 @@ func TestGovcReplay(t *testing.T) {
 		},
 	}}, harnesses...)
 }
+
+func init() {
+	harnesses = append([]*harness{{
+		name:      "empty subset selector replay (both subset builders over two hosts, selectors [[zone], []])",
+		modelFree: true,
+		match: func(o *Obligation) bool {
+			return strings.HasSuffix(o.Func, "cluster.(*subsetLoadBalancerBuilder).metadataCombinations")
+		},
+		run: func(eng *Engine, o *Obligation) *ReplayOutcome {
+			src := `package cluster
+
+import (
+	"fmt"
+	"testing"
+
+	"mosn.io/api"
+	v2 "mosn.io/mosn/pkg/config/v2"
+	"mosn.io/mosn/pkg/types"
+)
+
+// The failed obligation says: the combination enumerator is entered with an empty key list. Replay: a cluster whose
+// subset selectors are [["zone"], []] (a selector without keys), built by the filtering and by the pre-index builder.
+func TestGovcReplay(t *testing.T) {
+	info := NewClusterInfo(v2.Cluster{Name: "govc", LbType: v2.LB_RANDOM})
+	hosts := []types.Host{
+		NewSimpleHost(v2.Host{HostConfig: v2.HostConfig{Address: "127.0.0.1:1"}, MetaData: api.Metadata{"zone": "a"}}, info),
+		NewSimpleHost(v2.Host{HostConfig: v2.HostConfig{Address: "127.0.0.1:2"}, MetaData: api.Metadata{"zone": "b"}}, info),
+	}
+	hs := &hostSet{allHosts: hosts}
+	subsets := NewLBSubsetInfo(&v2.LBSubsetConfig{SubsetSelectors: [][]string{{"zone"}, {}}})
+	ci := &clusterInfo{lbType: types.Random, stats: newClusterStats("govc"), lbSubsetInfo: subsets}
+	a := NewSubsetLoadBalancer(ci, hs)
+	outcome := "built"
+	func() {
+		defer func() {
+			if r := recover(); r != nil {
+				outcome = fmt.Sprintf("panic: %v", r)
+			}
+		}()
+		b := NewSubsetLoadBalancerPreIndex(ci, hs)
+		if b.HostNum(nil) != a.HostNum(nil) {
+			outcome = "built, but the two builders disagree"
+		}
+	}()
+	if outcome == "built" {
+		fmt.Println("REPLAY-NOT-REPRODUCED both builders accept the configuration")
+		return
+	}
+	fmt.Printf("REPLAY-CONFIRMED subset selectors [[zone], []]: the filtering builder builds the balancer (the selector without keys selects nothing), the pre-index builder: %s\n", outcome)
+}
+`
+			out, _ := runOverlayTest("pkg/upstream/cluster", src, "^TestGovcReplay$")
+			return outcomeFromOutput(src, out)
+		},
+	}}, harnesses...)
+}
